@@ -63,12 +63,22 @@ class Samples(object):
         self.dir = tlc.scratch('c05_')
         self.path = os.path.join(self.dir, 's.fcs')
 
-    def load(self, pts, R=64, dt='I'):
+    def load(self, pts, R=64, dt='I', lead=False):
         ev = [[int(p[0]), int(p[1]), 7] for p in pts] if dt == 'I' else [[float(p[0]), float(p[1]), 7.0] for p in pts]
-        fcsgen.write_sample(self.path, ev, ['a', 'b', 'c'], [R, R, R], bits=16, datatype=dt, pne=['0,0'] * 3)
+        names = ['a', 'b', 'c']
+        if lead:
+            # the file starts with a time column, which the user looks at and then drops with a slice before gating by name
+            ev = [[i % R if dt == 'I' else float(i % R)] + e for i, e in enumerate(ev)]
+            names = ['t'] + names
+        fcsgen.write_sample(self.path, ev, names, [R] * len(names), bits=16, datatype=dt, pne=['0,0'] * len(names))
         with warnings.catch_warnings():
             warnings.simplefilter('ignore')
-            return FlowCal.io.FCSData(loadform.arg(self.path))
+            d = FlowCal.io.FCSData(loadform.arg(self.path))
+            if lead:
+                d[:, 't']
+                d.range('b')
+                d = d[:, 1:]
+            return d
 
 
 def gen_part(chk, S):
@@ -195,9 +205,9 @@ def trace_part(chk, S, n_examples):
                 pts = pts.copy()
                 pts[::7, 0] = -0.001
                 pts[3::11, 1] = -0.0005
-                data = S.load(pts, dt='F')
+                data = S.load(pts, dt='F', lead=(c['seed'] % 3 == 0))
             else:
-                data = S.load(pts)
+                data = S.load(pts, lead=(c['seed'] % 3 == 1))
             ch = ['a', 'b']
             bins = [kx + 2, ky + 2] if c['binspec'] in ('mixture', 'edges') else kx + 2
             kw = dict(xscale=c['scale'], yscale=c['scale'])
